@@ -420,7 +420,7 @@ def check_children(paths: List[Path], site: Site, kind: str, j: Judged) -> None:
                     if len(proc) != 1:
                         j.v("children", "fields are not processed once each through BpEndecodeMessageField", construct=str(_calls(b)), witness="a message with two fields: one is processed twice / skipped")
                         return
-                    if proc[0].args[0] != want:
+                    if proc[0].args[0] != want and proc[0].args[0] != V("descriptor.field_descriptors") + V(lv):
                         j.v("children", f"field k is processed with descriptor `{show(proc[0].args[0])}`, not field_descriptors[k]", construct=show(proc[0].args[0]), witness="a message with two fields: one is processed twice / skipped")
                         return
 
